@@ -64,7 +64,15 @@ def tri2Oracle (A B C O D : V2 Rat) (max : Option Rat) (solid : Bool) (out : Out
   let nearPar := [(A, B), (B, C), (C, A)].any fun (P, Q) =>
     let E := Q.sub P; let cr := cross2 D E
     decide (cr ≠ 0) && decide (sqr cr ≤ (1 / 100000 : Rat) * D.normSq * E.normSq)
-  let sfx := if nearPar then "-near-parallel-edge" else ""
+  -- the exact entry point of the line into the closed triangle lies within 1e-6·scale of a vertex: the two edge casts that meet
+  -- there may both reject it (segment parameter 1 + 1e-17 on one edge, −1e-17 on the other): KNOWN_FINDINGS `entry-through-vertex`
+  let viaVertex : Bool :=
+    match triInterval hs O D 0 with
+    | some (some lo, _) =>
+      let P0 := O.add (D.smul lo)
+      decide (lo > 0) && [A, B, C].any fun V => decide ((P0.sub V).normSq ≤ sqr ((1 / 1000000 : Rat) * scale))
+    | _ => false
+  let sfx := if viaVertex then " entry-through-vertex" else if nearPar then "-near-parallel-edge" else ""
   match out with
   | .bad w => s!"fail {w}"
   | .miss =>
